@@ -502,6 +502,11 @@ std::string HexS(const std::string& s) {
 // Runs one simulated ninja invocation inside the (forked) child.  Mirrors real_main():
 // parse, builddir, load logs, open for write, manifest-rebuild loop, RunBuild.
 JV Invocation(World& w, const JV& step, const std::string& scratch) {
+  // like real_main(): times in the build log are relative to the start of this invocation; the (pretended) start lies a
+  // scenario-dependent while back, so that a command's end time is sometimes larger and sometimes smaller than the end
+  // time an earlier invocation logged for the same output
+  const int64_t invocation_start = GetTimeMillis() - (int64_t)((step.at("sched").num("seed", 1) * 7919 + step.num("j", 1) * 104729) % 5000);
+
   JV out = JV::Obj();
   JV events = JV::Arr();
   w.disk.events = &events;
@@ -620,7 +625,7 @@ JV Invocation(World& w, const JV& step, const std::string& scratch) {
       Node* node = state->LookupNode(path);
       bool rebuilt = false;
       if (node) {
-        Builder builder(state, config, build_log, deps_log, &w.disk, status, 0);
+        Builder builder(state, config, build_log, deps_log, &w.disk, status, invocation_start);
         SimJobserver* js = nullptr;
         if (!config.dry_run) make_runner(builder, &js);
         std::string merr;
@@ -646,7 +651,7 @@ JV Invocation(World& w, const JV& step, const std::string& scratch) {
 
     // ---- RunBuild mirror
     {
-      Builder builder(state, config, build_log, deps_log, &w.disk, status, 0);
+      Builder builder(state, config, build_log, deps_log, &w.disk, status, invocation_start);
       SimJobserver* js = nullptr;
       SimRunner* runner = config.dry_run ? nullptr : make_runner(builder, &js);
       std::vector<Node*> targets;
@@ -843,6 +848,32 @@ int main(int argc, char** argv) {
       else if (op == "rm") w.disk.Del(step.str("path"));
       else if (op == "rmlog") { for (auto it = w.logs.begin(); it != w.logs.end();) { if (it->first.find(step.str("which")) != std::string::npos) it = w.logs.erase(it); else ++it; } }
       else if (op == "setlog") w.logs[step.str("path")] = Unhex(step.str("hex"));
+      else if (op == "bloatlogs") {
+        // what a long history does to the logs without changing what they say: every record many times over, in the
+        // order it was written, so that the next ninja finds them due for recompaction
+        for (auto& kv : w.logs) {
+          std::string& d = kv.second;
+          if (kv.first.find(".ninja_log") != std::string::npos) {
+            size_t nl = d.find('\n');
+            if (nl == std::string::npos) continue;
+            std::string body = d.substr(nl + 1);
+            size_t lines = 0; for (char c : body) if (c == '\n') ++lines;
+            if (!lines) continue;
+            for (size_t k = 0; k < 120 / lines + 4; ++k) d += body;
+          } else if (kv.first.find(".ninja_deps") != std::string::npos) {
+            size_t off = 16; std::string recs; size_t n = 0;
+            while (off + 4 <= d.size()) {
+              uint32_t sz; memcpy(&sz, d.data() + off, 4);
+              uint32_t len = sz & 0x7fffffffu;
+              if (off + 4 + len > d.size()) break;
+              if (sz & 0x80000000u) { recs += d.substr(off, 4 + len); ++n; }
+              off += 4 + len;
+            }
+            if (!n || off != d.size()) continue;
+            for (size_t k = 0; k < 1100 / n + 4; ++k) d += recs;
+          }
+        }
+      }
       else if (op == "manifest") SetManifest(w, step);
       else if (op == "build" || op == "clean") {
         w.disk.events = nullptr;
